@@ -1,7 +1,7 @@
 CONSTANTS
   RelMd = 1500
-  SlackRec = 6000
-  SlackNew = 3000
+  SlackRec = 5500
+  SlackNew = 0
   TolSlack = 10
   RateBand = 5
 INIT TInit
